@@ -511,8 +511,10 @@ def check(run):
                        "data-modifying, set operations, parenthesised arms, FOR UPDATE/SHARE/NO KEY UPDATE/KEY SHARE, INTO); messages of 1-3 statements in every order, empty messages, messages the parser rejects; "
                        "sessions: every message alone (Q or P framing), 72 command-pair boundary sessions, random sessions of 2-4 messages with SET SERVER ROLE / SET PRIMARY READS in between, Bind steps; "
                        "each session under all 24 combinations of parser x splitting x primary_reads x default_role, a share again with automatic_sharding_key on. "
-                       "distinct = distinct (configuration, framing, message, router state before the message)" % (30, len(G.START) + len(G.OTHER), 2 if quick else 4))
-    run.cov["samples"] = samples[:6] + [{"kind": "message", "sql": texts[i][:160], "label": [G.shape(l) for l in labels[i]], "accepted": asts[i] is not None} for i in (0, 8, 14, len(acc) - 1, len(acc) + 30)]
+                       "distinct = distinct (configuration, framing, message, router state before the message)"
+                       % (len(G.statements(__import__("random").Random(0), 0, 0)) - len(G.START) - len(G.OTHER), len(G.START) + len(G.OTHER), 2 if quick else 4))
+    run.cov["samples"] = samples[:6] + [{"kind": "message", "sql": texts[i][:160], "label": [G.shape(l) for l in labels[i]], "accepted": asts[i] is not None}
+                                        for i in (0, 8, 14, len(acc) - 1, len(acc) + 30) if 0 <= i < len(texts)]
     run.cov["input_distribution"] = {"statements_generated": len(stmts), "statements_accepted": len(acc), "statements_rejected_by_sqlparser": len(rejected_stmts),
                                      "accepted_by_shape": shape_hist, "rejected_by_shape": rej_kinds, "messages": len(msgs), "messages_accepted": n_acc, "messages_rejected": n_rej,
                                      "message_kinds": {k: len(v) for k, v in kind_idx.items()}, "sessions": len(sessions), "configurations": len(CFGS),
